@@ -390,8 +390,12 @@ def run(tier, seed):
     bdir = build.build("asan")
     chk = core.Check(PID, tier, seed)
     nconf, nrob = (100000, 60000) if tier == "quick" else (1000000, 1000000)
+    rd = core.record_dir(PID) if tier == "thorough" else None
     sh = core.parallel(shard_fn, seed=seed, tier=tier, exe=bdir + "/jcdrv", nconf=nconf, nrob=nrob)
     chk.absorb(sh)
+    if rd:
+        os.environ.pop("VF_RECORD_DIR", None)
+        core.memcheck_recorded(chk, build.build("plain"), rd)
     if tier == "thorough":
         fdir = build.build("fuzz")
         chk.absorb(core.run_fuzz(fdir + "/fuzz_patch", PID, runs=500000, seed=seed, jobs=16, max_len=400, dict_path=os.path.join(core.VERIF, "harness", "patch.dict")))
